@@ -2,10 +2,9 @@ CONSTANTS
   RecheckAfterTemplate = TRUE
   MaxAdded = 3
   Thresholds = {0, 1, 2}
-  IncomingSolved = {FALSE}
-  ResetIncoming = TRUE
+  IncomingSolved = {FALSE, TRUE}
+  ResetIncoming = FALSE
   ConfStrict = FALSE
-SPECIFICATION CSpec
-ACTION_CONSTRAINT Record
-POSTCONDITION Post
+SPECIFICATION Spec
+INVARIANT C01_SolvedBalanced
 CHECK_DEADLOCK FALSE
